@@ -106,7 +106,7 @@ def run(res):
                         'HCM rule = case list of the FKM non-linear guideline (differs from the 1986 flow chart only after a closed hysteresis that touches the largest load so far)']
     res.cov['rule'] = ('one-piece signals: exhaustive over {0..3} (quick: len<=6; thorough: {0..4} len<=7) + random integer signals over 2-5 values with plateaus / constant '
                        'stretches / leading-trailing plateaus, length 2..40; non-trivial = at least 2 closed cycles and at least one tie among consecutive ranges '
-                       '(counted distinct by (detector, signal))')
+                       '(counted distinct by (detector, signal)); plus a near-tie float stream: samples k/2^30 with ranges 1e-9 apart (exact in doubles) fed as floats, compared as integers')
     common.standard_proof_stage(res, 'C02', extra_targets=['theories/Rainflow/SpecEqb.vo'])
 
     sigs = []
@@ -124,12 +124,17 @@ def run(res):
         ex = [s for s in sigs[:-nrand]]
         rng.shuffle(ex)
         sigs = ex[:2500] + sigs[-nrand:]
+    # near-tie float stream: samples k / 2^30 (exact doubles, exact differences), ranges 1e-9 apart
+    n_near = 700 if quick else 8000
+    near = [rf.near_tie(rng, tie_signal(rng, 24)) for _ in range(n_near)]
+    res.cov['near_tie_float_signals'] = len(near)
     model_terms, spec_terms, meta = [], [], []
     nontriv = set()
-    for s in sigs:
+    for s in sigs + near:
+        denom = rf.DENOM if any(abs(x) >= rf.DENOM // 2 for x in s) else 1
         for k in rf.KINDS:
             try:
-                o = rf.impl_run(k, [s])
+                o = rf.impl_run(k, [s], denom=denom)
             except Exception as e:
                 res.violation('detector raises on a valid signal', detector=k, signal=s, error=repr(e))
                 continue
@@ -158,8 +163,9 @@ def run(res):
             continue
         seen.add(k)
         s2 = shrink_spec(k, s)
-        o2 = rf.impl_run(k, [s2])
-        res.violation(names[k], detector=k, signal=s2, cycles=o2[0], residuals=o2[1])
+        dn = rf.DENOM if any(abs(x) >= rf.DENOM // 2 for x in s2) else 1
+        o2 = rf.impl_run(k, [s2], denom=dn)
+        res.violation(names[k], detector=k, signal=s2, signal_is_integer_image_of_floats_divided_by=dn, cycles=o2[0], residuals=o2[1])
     res.add_cases(len(model_terms), nontrivial=len(nontriv))
     res.cov['oracle_comparisons'] = len(spec_terms)
     res.cov['oracle_disagreements'] = len(bads)
@@ -171,7 +177,7 @@ def spec_fails(kind, s):
     if len(s) < 2:
         return False
     try:
-        o = rf.impl_run(kind, [s])
+        o = rf.impl_run(kind, [s], denom=rf.DENOM if any(abs(x) >= rf.DENOM // 2 for x in s) else 1)
     except Exception:
         return True
     if direct_checks(kind, s, o):
